@@ -75,8 +75,11 @@ STAGES = ("w1", "w2", "pdf", "png")
 # ------------------------------------------------------------------------------------------------
 # configurations and bounds
 # ------------------------------------------------------------------------------------------------
-def _cfg(w1="default", w2="default", pdf_ov=False, png_ov=False):
-    return {"w1": w1, "w2": w2, "pdf_ov": pdf_ov, "png_ov": png_ov}
+def _cfg(w1="default", w2="default", pdf_ov=False, png_ov=False, img=None):
+    c = {"w1": w1, "w2": w2, "pdf_ov": pdf_ov, "png_ov": png_ov}
+    if img:
+        c["img"] = img      # PDFToPNG(format=...): a documented non-default option
+    return c
 
 
 ALL_CFGS = [_cfg(a, b, c, d) for a in WMODES for b in WMODES for c in (False, True) for d in (False, True)]
@@ -93,7 +96,10 @@ def _plan(tier):
         for c in MAIN_CFGS:
             light.append({"kind": "grouped", "p": 2, "cfg": c, "runs": 3})
         light.append({"kind": "plain", "p": 2, "cfg": _cfg(), "runs": 2})
+        light.append({"kind": "plain", "p": 1, "cfg": _cfg(img="jpeg"), "runs": 6})
     else:
+        light.append({"kind": "plain", "p": 1, "cfg": _cfg(img="jpeg"), "runs": 8})
+        light.append({"kind": "grouped", "p": 2, "cfg": _cfg(img="jpeg"), "runs": 3})
         for c in ALL_CFGS:
             light.append({"kind": "plain", "p": 1, "cfg": c, "runs": 8})
         for c in ALL_CFGS:
@@ -195,7 +201,9 @@ def build(kind, p, cfg, taps):
     render = lena.output.RenderLaTeX(M.TPL_NAME, template_dir=M.TPL_DIR)
     tail = [w2, _tap("w2", kind, taps),
             lena.output.LaTeXToPDF(overwrite=cfg["pdf_ov"], verbose=0), _tap("pdf", kind, taps),
-            lena.output.PDFToPNG(overwrite=cfg["png_ov"], verbose=False), _tap("png", kind, taps)]
+            lena.output.PDFToPNG(overwrite=cfg["png_ov"], verbose=False,
+                                 **({"format": cfg["img"]} if cfg.get("img") else {})),
+            _tap("png", kind, taps)]
     mk = lena.output.MakeFilename("{{name}}", dirname="{{dir}}")
     if kind == "plain":
         els = [lena.output.ToCSV(), mk, w1, _tap("w1", kind, taps), render] + tail
@@ -371,7 +379,7 @@ def judge(job, pre, inputs, obs):
                  "the run completes", "")]
     out = []
     post, written = obs["post"], obs["written"]
-    docs = M.layout(kind, p)
+    docs = M.layout(kind, p, cfg.get("img") or "png")
     taps = {}
     for rec in obs["taps"]:
         taps.setdefault((rec["doc"], rec["stage"]), []).append(rec)
